@@ -24,7 +24,8 @@ enum Size { S M L }
 enum Mood { HAPPY SAD }
 enum Dir { N E S W }
 interface Node { id: ID! }
-input Filter { color: Color size: Size mood: Mood and: [Filter!] range: Range }
+input Filter { color: Color size: Size mood: Mood and: [Filter!] not: Filter range: Range }
+input Search { filter: Filter paging: Paging }
 input Range { from: Date to: Date dir: Dir }
 input Paging { first: Int after: ID }
 input Sort { by: String dir: Dir }
@@ -32,7 +33,7 @@ type Person implements Node { id: ID! name: String color: Color size: Size mood:
 type Cat implements Node { id: ID! name: String lives: Int! }
 type Dog implements Node { id: ID! name: String good: Boolean! }
 union Pet = Cat | Dog
-type Query { me(f: Filter, p: Paging, s: Sort): Person! node(id: ID!): Node people(f: Filter): [Person!] }
+type Query { me(f: Filter, p: Paging, s: Sort, q: Search): Person! node(id: ID!): Node people(f: Filter): [Person!] }
 '''
 # schema B: other nullability AND shifted positions (an extra scalar / enum in front, reordered enums, an extra
 # first field), so that anything remembered about schema A (type / field indices) is wrong for B
@@ -40,12 +41,13 @@ SCHEMA_B = (SCHEMA_A.replace("lives: Int!", "lives: Int").replace("name: String 
             .replace("scalar Date\n", "scalar Extra\nenum Zed { Z }\nscalar Date\n")
             .replace("enum Color { RED GREEN BLUE }\nenum Size { S M L }\n", "enum Size { S M L }\nenum Color { RED GREEN BLUE }\n")
             .replace("input Filter {", "input Pre { x: Int }\ninput Filter {")
+            .replace("not: Filter", "not: Range")          # same input name, recursive in A, flat in B
             .replace("interface Node { id: ID! }", "interface Named { name: String }\ninterface Node { id: ID! }")
             .replace("type Person implements Node { id: ID!", "type Other { x: Int }\ntype Person implements Node { extra: Int id: ID!"))
-assert SCHEMA_B.count("Extra") == 1 and "nickname" in SCHEMA_B and "type Other" in SCHEMA_B and "input Pre" in SCHEMA_B
+assert "not: Range" in SCHEMA_B and SCHEMA_B.count("Extra") == 1 and "nickname" in SCHEMA_B and "type Other" in SCHEMA_B and "input Pre" in SCHEMA_B
 
-QUERY_A = '''query Main($f: Filter, $p: Paging, $s: Sort, $d: Date) {
-  me(f: $f, p: $p, s: $s) {
+QUERY_A = '''query Main($f: Filter, $p: Paging, $s: Sort, $d: Date, $q: Search) {
+  me(f: $f, p: $p, s: $s, q: $q) {
     ...PersonBits
     ...Looks
     friends { ...PersonBits site }
